@@ -105,9 +105,9 @@ class FitsTiler(object):
             parallel processing is not possible and serial processing will be
             forced. Pass ``1`` to force serial processing.
         override : optional boolean, defaults to False
-            By default, if the output directory already exists, the tiling
-            process is skipped. If this argument is true, an existing
-            output directory will be deleted if it exists.
+            By default, if the output directory already exists and is not
+            empty, the tiling process is skipped. If this argument is true, an
+            existing output directory will be deleted if it exists.
         kwargs
             Settings for the tiling process. For example, ``blankval``.
 
@@ -143,7 +143,9 @@ class FitsTiler(object):
         self.builder = builder.Builder(pio)
         self.builder.set_name(self.out_dir.split("/")[-1])
 
-        if os.path.isdir(self.out_dir):
+        # An existing but empty directory (say, one made by `tempfile.mkdtemp()`)
+        # holds nothing to reuse: it is tiled into like a missing one.
+        if os.path.isdir(self.out_dir) and os.listdir(self.out_dir):
             if override:
                 if cli_progress:
                     print(f"Tile directory already exists -- removing")
